@@ -1,0 +1,18 @@
+//go:build !verif
+// +build !verif
+
+package manifest
+
+import (
+	"github.com/ovrclk/akash/manifest"
+	mtypes "github.com/ovrclk/akash/x/market/types"
+)
+
+// Verification trace points (see util/veriftrace). Without the "verif" build
+// tag they are empty methods and the call sites compile to nothing.
+
+func (m *manager) vtrace(event string, fetchInFlight bool)                 {}
+func (m *manager) vrequest(req manifestRequest)                            {}
+func (m *manager) vreply(ch chan<- error, response error)                  {}
+func (m *manager) vannounce(lease mtypes.LeaseID, mani *manifest.Manifest) {}
+func (s *service) vtrace(event string)                                     {}
